@@ -73,7 +73,7 @@ CHECKS["C02"] = {
             "another message; the same s2 with one coefficient moved by +-q (same residues, norm far above the bound); the C07 "
             "cursor sweep of malformed/edge encodings under honest, zero, all-(q-1), monomial and random public keys; crafted "
             "triples whose norm is EXACTLY bound+d for d in {-3..3, +-1000, +-q}: s2 chosen NTT-invertible (dense, sparse, "
-            "large), s1 with coefficients at +-6144/+-6143 in one style and completed by a four-square decomposition, "
+            "large, and lopsided: s2 alone carries more than half of the bound), s1 with coefficients at +-6144/+-6143 in one style and completed by a four-square decomposition, "
             "h = (c - s1)/s2. distinct_nontrivial = distinct triples whose class is non-trivial (honest accepted, mutated, "
             "aliased, malformed cell, exact-norm) counted by (class, variant, case id).",
     "assumptions": ["reference Algorithm 16 in harness/src/refs (self-tested against SHAKE known answers and against PQClean at the exact boundary on every run)"],
@@ -181,7 +181,7 @@ CHECKS["C04"] = {
             "agree to 1e-7. The in-situ side (every sampler call during signing has sigma' in range) is monitored by C09's "
             "in-situ leg. Seeds: derived from VERIF_SEED, counter seeds, and the regression seeds of C05. "
             "distinct_nontrivial = distinct seeds whose key passed through all oracles.",
-    "assumptions": ["i128 / reference-ring arithmetic of the harness", "about 270 keys quick, 6900 thorough out of 2^256 seeds"],
+    "assumptions": ["i128 / reference-ring arithmetic of the harness", "about 730 keys quick, 9600 thorough out of 2^256 seeds"],
     "legs": [{"name": "keys"}],
     "technique": "invariant monitor at read-only hooks (basis and tree leaves) with exact integer oracles and an independent Gram-Schmidt cross-check",
     "level_text": "Sampled over seeds; each sampled key is checked exactly (integer identities) and numerically (leaf range, determinant identity, independent Gram-Schmidt).",
